@@ -197,12 +197,17 @@ def parse_lms():
     return from_u32, get_from, rows
 
 
+def parse_misc_structure():
+    s = strip_comments(src("src/hss/reference_impl_private_key.rs"))
+    need(r"result\.0\[i\] = \(lms_type << 4\) \+ lmots_type;", s, "parameter nibble packing")
+    need(r"let lms_type = parameter >> 4;\s*let lmots_type = parameter & 0x0f;", s, "parameter nibble unpacking")
+
+
 def parse_misc():
     out = {}
     s = strip_comments(src("src/hss/reference_impl_private_key.rs"))
     out["PARAM_SET_END"] = rust_int(need(r"const PARAM_SET_END: u8 = ([^;]+);", s, "PARAM_SET_END").group(1))
-    need(r"result\.0\[i\] = \(lms_type << 4\) \+ lmots_type;", s, "parameter nibble packing")
-    need(r"let lms_type = parameter >> 4;\s*let lmots_type = parameter & 0x0f;", s, "parameter nibble unpacking")
+    parse_misc_structure()
     a = strip_comments(src("src/hss/aux.rs"))
     out["AUX_DATA_MARKER"] = rust_int(need(r"const AUX_DATA_MARKER: usize = ([^;]+);", a, "AUX_DATA_MARKER").group(1))
     out["NO_AUX_DATA"] = rust_int(need(r"const NO_AUX_DATA: u8 = ([^;]+);", a, "NO_AUX_DATA").group(1))
@@ -235,6 +240,73 @@ def parse_build_cfg(env_override=None):
     ws = [int(x) for x in env.get("HBS_LMS_WINTERNITZ_PARAMETERS", dw).split(", ")]
     return {"MAX_ALLOWED_HSS_LEVELS": levels, "TREE_HEIGHTS": heights, "WINTERNITZ_PARAMETERS": ws}
 
+
+
+# ---------------------------------------------------------------- constants as compiled
+
+def constants_from_hook(path):
+    """The values of the constants, the chain-count table and the length formulas as COMPILED: the
+    harness prints what src/verif_hooks.rs::model_constants() returns (`hv consts`).  Independent
+    of how a constant is spelled in the source text; the length formulas are checked here against
+    the formulas the model uses."""
+    vals, chains, lengths = {}, [], []
+    for ln in open(path):
+        ln = ln.strip()
+        if not ln.startswith("{"):
+            continue
+        j = json.loads(ln)
+        if j.get("k") != "const":
+            continue
+        if j["name"] == "NUM_CHAINS":
+            chains.append(tuple(j["v"]))
+        elif j["name"] == "LENGTHS":
+            lengths.append(tuple(j["v"]))
+        else:
+            vals[j["name"]] = j["v"]
+    need_names = ["ILEN", "MAX_SEED_LEN", "MAX_HASH_SIZE", "MAX_HASH_BLOCK_SIZE", "D_PBLC", "D_MESG", "D_LEAF", "D_INTR",
+                  "TOPSEED_SEED", "TOPSEED_LEN", "TOPSEED_D", "TOPSEED_WHICH", "D_TOPSEED", "PRNG_I", "PRNG_Q", "PRNG_J",
+                  "PRNG_FF", "PRNG_SEED", "PRNG_LEN", "SEED_CHILD_SEED", "SEED_SIGNATURE_RANDOMIZER_SEED",
+                  "HSS_COMPRESSED_USED_LEAFS_SIZE", "REF_IMPL_MAX_ALLOWED_HSS_LEVELS", "REF_IMPL_MAX_PRIVATE_KEY_SIZE",
+                  "MIN_SUBTREE", "DAUX_D", "DAUX_PREFIX_LEN", "D_DAUX", "ITER_I", "ITER_Q", "ITER_K", "ITER_J", "ITER_PREV",
+                  "ITER_LEN", "PARAM_SET_END", "AUX_DATA_MARKER", "NO_AUX_DATA", "AUX_DATA_HASHES", "IPAD", "OPAD"]
+    for nm in need_names:
+        if nm not in vals:
+            raise TranslateError("the hook did not report constant %s" % nm)
+    k = {}
+    for nm in need_names:
+        k[nm] = vals[nm] if nm in ("D_PBLC", "D_MESG", "D_LEAF", "D_INTR", "PRNG_LEN", "ITER_LEN") else vals[nm][0]
+    # prng_len(s) = base + s, iter_len(s) = ITER_PREV + s (sampled at 0, 16, 32)
+    pl, il = k["PRNG_LEN"], k["ITER_LEN"]
+    if not (pl[1] - pl[0] == 16 and pl[2] - pl[0] == 32):
+        raise TranslateError("prng_len is not base + seed_len: %s" % pl)
+    if not (il[0] == k["ITER_PREV"] and il[1] == il[0] + 16 and il[2] == il[0] + 32):
+        raise TranslateError("iter_len is not ITER_PREV + hash_len: %s" % il)
+    k["PRNG_LEN_BASE"] = pl[0]
+    if k["REF_IMPL_MAX_PRIVATE_KEY_SIZE"] != k["HSS_COMPRESSED_USED_LEAFS_SIZE"] + k["REF_IMPL_MAX_ALLOWED_HSS_LEVELS"] + k["MAX_SEED_LEN"]:
+        raise TranslateError("REF_IMPL_MAX_PRIVATE_KEY_SIZE is not counter + parameter bytes + seed")
+    # get_num_winternitz_chains on its domain, in the (w, n) order of the model's table
+    ws, ns = [1, 2, 4, 8], [16, 24, 32]
+    table = {(w, n): c for (w, n, c) in chains}
+    if sorted(table) != sorted((w, n) for w in ws for n in ns):
+        raise TranslateError("unexpected domain of get_num_winternitz_chains: %s" % sorted(table))
+    k["HASH_CHAIN_COUNTS"] = [table[(w, n)] for w in ws for n in ns]
+    k["CHAIN_W_INDEX"] = [(w, i) for i, w in enumerate(ws)]
+    k["CHAIN_N_INDEX"] = [(n, i) for i, n in enumerate(ns)]
+    k["CHAIN_STRIDE"] = len(ns)
+    # the length formulas of the model (Codec / serialisers): checked on the reported grid
+    ilen = k["ILEN"]
+    for (n, p, h, lmots_sig, lms_pk, lms_sig, spk) in lengths:
+        want = (4 + n + n * p, 4 + 4 + ilen + n, 4 + (4 + n + n * p) + 4 + n * h, 4 + (4 + n + n * p) + 4 + n * h + (4 + 4 + ilen + k["MAX_HASH_SIZE"]))
+        if (lmots_sig, lms_pk, lms_sig, spk) != want:
+            raise TranslateError("length formulas differ from the model's at n=%d p=%d h=%d: %s vs %s" % (n, p, h, (lmots_sig, lms_pk, lms_sig, spk), want))
+    if not lengths:
+        raise TranslateError("the hook reported no length samples")
+    misc = {nm: k[nm] for nm in ("PARAM_SET_END", "AUX_DATA_MARKER", "NO_AUX_DATA", "AUX_DATA_HASHES", "IPAD", "OPAD")}
+    cfg = None
+    if all(nm in vals for nm in ("MAX_ALLOWED_HSS_LEVELS", "TREE_HEIGHTS", "WINTERNITZ_PARAMETERS")):
+        cfg = {"MAX_ALLOWED_HSS_LEVELS": vals["MAX_ALLOWED_HSS_LEVELS"][0], "TREE_HEIGHTS": vals["TREE_HEIGHTS"],
+               "WINTERNITZ_PARAMETERS": vals["WINTERNITZ_PARAMETERS"]}
+    return k, misc, cfg
 
 # ---------------------------------------------------------------- struct table (C16)
 
@@ -510,7 +582,9 @@ def hash_inputs():
                     first[t.group(1)] = len(first) + 1
             args = [re.sub(ident, lambda t: ("$%d" % first[t.group(1)]) if t.group(1) in first else t.group(1), a) for a in raw]
             if args:
-                rows.append((path[len("src/"):] + "::" + name, args))
+                rows.append((path[len("src/"):], args))
+    # keyed by FILE only and sorted: renaming or reordering functions inside a file is not a change
+    rows.sort(key=lambda r: (r[0], r[1]))
     return rows
 
 # ---------------------------------------------------------------- RFC vectors
@@ -646,13 +720,22 @@ def main():
     out = sys.argv[1] if len(sys.argv) > 1 else "/verif/coq/theories/Gen/Generated.v"
     env_override = None
     if len(sys.argv) > 2:
-        env_override = json.loads(sys.argv[2])
+        env_override = json.loads(sys.argv[2])   # "null" = none
+    consts_file = sys.argv[3] if len(sys.argv) > 3 else None
     try:
-        k = parse_constants()
+        if consts_file:
+            # values as compiled (hook); the packing of the parameter byte is still read from the text
+            k, misc, cfg_hook = constants_from_hook(consts_file)
+            parse_misc_structure()
+            cfg = parse_build_cfg(env_override)
+            if cfg_hook is not None and env_override is None and cfg_hook != cfg:
+                raise TranslateError("build limits of the compiled harness %s differ from build.rs/.cargo/config.toml %s" % (cfg_hook, cfg))
+        else:
+            k = parse_constants()
+            misc = parse_misc()
+            cfg = parse_build_cfg(env_override)
         lmots = parse_lmots()
         lms = parse_lms()
-        misc = parse_misc()
-        cfg = parse_build_cfg(env_override)
         structs, impls = parse_structs()
         ambient, forbid = ambient_audit()
         vecs = parse_rfc_vectors()
